@@ -44,6 +44,29 @@ def items(ctx):
         it["set"]["w"] = rng.choice([1, 1, 2])
         it["set"]["pen"] = rng.choice([0, 2, 3])
         out.append(it)
+    # probabilistic variant (sampled paths): selected series over {0,1,3}, unselected ones far away, masks with
+    # unselected series before selected ones; only the range clause is judged
+    for k in range(150 if q else 2500):
+        nd = rng.choice([1, 1, 2])
+        nser = rng.choice([3, 4, 5])
+        it = make(rng, nser, 4, nd)
+        mask = [rng.random() < 0.55 for _ in range(nser)]
+        if not any(mask):
+            mask[rng.randrange(nser)] = True
+        it["mask"] = mask
+        L = len(it["ser"][0]) if rng.random() < 0.7 else None
+        ser = []
+        for z in range(nser):
+            ln = L or rng.randint(1, 4)
+            if mask[z]:
+                ser.append([[rng.choice((0, 1, 3))] * nd if nd == 1 else list(rng.choice(P2)) for _ in range(ln)])
+            else:
+                ser.append([[rng.choice((50, 60))] * nd for _ in range(ln)])
+        it["ser"] = ser
+        it["avg"] = [[rng.choice((0, 1, 3))] * nd if nd == 1 else list(rng.choice(P2)) for _ in range(rng.randint(1, 4))]
+        it["prob_samples"] = [rng.choice([1, 2, 5])]
+        it["maxits"] = [1]
+        out.append(it)
     # byte boundary of the bit-packed mask: 9-10 very short series
     for k in range(60 if q else 600):
         it = make(rng, rng.choice([9, 10]), 1, 1, vals=(0, 1, 3))
@@ -58,7 +81,7 @@ RULE = ("cases: seeded collections of 1-3 series (lengths <= 4, ndim 1-2, equal/
         "families) and 9-10 one-point series (mask byte boundary) x initial average x masks with >= 1 selected series x "
         "window x penalty x inner distance; recorded: the updated average of dba (Python, Python averaging over C "
         "paths), dtw_cc.dba/dba_ndim (list and matrix containers), direct dtw_dba_ptrs/_matrix calls, first step of "
-        "dba_loop, and the number of loop steps; floats rationalised exactly; TLC accepts a result iff SOME choice of one "
+        "dba_loop, the number of loop steps, and the sampled-path variant (nb_prob_samples > 0: range clause only); floats rationalised exactly; TLC accepts a result iff SOME choice of one "
         "optimal path per selected series explains it, and checks range and objective; Act M proves the consequences "
         "for every choice on the model; non-trivial = mask excludes a series or optimal paths not unique or window/penalty")
 
@@ -78,7 +101,7 @@ def judge(ctx, src, its):
     records, by_id = [], {}
     for it, o in zip(its, outs):
         if o.get("crashed"):
-            o = {"routes": ["PROCESS-CRASH"], "news": [[[0]]], "dns": [-5], "loops": []}
+            o = {"routes": ["PROCESS-CRASH"], "news": [[[0]]], "dns": [-5], "loops": [], "probs": []}
         rec = {"id": it["id"], "kind": "dba", "set": it["set"], "ser": it["ser"], "avg": it["avg"], "mask": it["mask"]}
         rec.update({k: v for k, v in o.items() if k != "id"})
         it["_rec"] = rec
